@@ -876,6 +876,8 @@ REF_UDP_AEXIT = [("split", "BaseExceptionGroup", "ClientClosedError", 1, ("suppr
 
 
 def _ref_class(name):
+    if isinstance(name, type):
+        return name
     from easynetwork.exceptions import ClientClosedError
     return {"ClientClosedError": ClientClosedError, "ConnectionError": ConnectionError, "Exception": Exception,
             "BaseException": BaseException, "BaseExceptionGroup": BaseExceptionGroup}[name]
@@ -1045,7 +1047,7 @@ def _probe_logger():
     return lg, h
 
 
-def _behaves_like(site, observe, reference_eval, udp, err):
+def _behaves_like(site, observe, reference_eval, udp, err, what="its reference table"):
     """observe(exc) -> (escaped exception or None, log codes); reference_eval(e) -> (model exc, logs)"""
     mirror = _Mirror(udp)
     n = 0
@@ -1055,14 +1057,14 @@ def _behaves_like(site, observe, reference_eval, udp, err):
         e = ("n", spec[1]) if spec[0] == 0 else ("g", list(spec[1]))
         want_exc, want_logs = reference_eval(mirror, e)
         if _canon_exc(got_exc, udp) != _canon_model(want_exc, mirror) or list(got_logs) != list(want_logs):
-            raise TranslateError(f"{err}; and the behaviour of {site} differs from its reference table on {spec} "
+            raise TranslateError(f"{err}; and the behaviour of {site} differs from {what} on {spec} "
                                  f"(nested={nested}): escapes {_canon_exc(got_exc, udp)} logs {got_logs}, reference "
                                  f"{_canon_model(want_exc, mirror)} logs {want_logs}")
         n += 1
     return n
 
 
-def _fallback_tcp_suppress(err):
+def _fallback_tcp_suppress(err, layers=None, what="its reference table"):
     import types
     from easynetwork.servers.async_tcp import AsyncTCPNetworkServer
     cm = getattr(AsyncTCPNetworkServer, "_AsyncTCPNetworkServer__suppress_and_log_remaining_exception")
@@ -1079,10 +1081,10 @@ def _fallback_tcp_suppress(err):
         return None, list(h.codes)
 
     return _behaves_like("async_tcp.__suppress_and_log_remaining_exception", observe,
-                         lambda m, e: m.layers(REF_TCP_SUPPRESS, e), False, err)
+                         lambda m, e: m.layers(layers or REF_TCP_SUPPRESS, e), False, err, what)
 
 
-def _fallback_udp_aexit(err):
+def _fallback_udp_aexit(err, cases=None, what="its reference table"):
     import types
     from easynetwork.servers import async_udp
     lg, h = _probe_logger()
@@ -1102,10 +1104,11 @@ def _fallback_udp_aexit(err):
             loop.close()
         return (None if swallowed else exc), list(h.codes)
 
-    return _behaves_like("async_udp._ClientContext.__aexit__", observe, lambda m, e: m.match(REF_UDP_AEXIT, e), True, err)
+    return _behaves_like("async_udp._ClientContext.__aexit__", observe, lambda m, e: m.match(cases or REF_UDP_AEXIT, e), True,
+                         err, what)
 
 
-def _fallback_misc_stream(err):
+def _fallback_misc_stream(err, layers=None, what="its reference table"):
     """disconnect_client's filter and whether it is registered only once on_connection() has completed"""
     from easynetwork.servers.handlers import AsyncStreamRequestHandler
     from easynetwork.servers.misc import build_lowlevel_stream_server_handler
@@ -1163,7 +1166,8 @@ def _fallback_misc_stream(err):
             loop.close()
 
     n = _behaves_like("misc.build_lowlevel_stream_server_handler.handler.disconnect_client",
-                      lambda exc: (run(None, exc), list(h.codes)), lambda m, e: m.layers(REF_TCP_DISCONNECT, e), False, err)
+                      lambda exc: (run(None, exc), list(h.codes)), lambda m, e: m.layers(layers or REF_TCP_DISCONNECT, e), False,
+                      err, what)
     run(None, None)
     if not state.get("disc_called") or not state.get("disc_inside_initializer"):
         raise TranslateError(f"{err}; and on_disconnection() does not run inside the initializer's context (the per-client "
@@ -1171,6 +1175,950 @@ def _fallback_misc_stream(err):
     run(ValueError("on_connection fails"), None)
     disc_after = not state.get("disc_called", False)
     return n, disc_after
+
+
+# ----------------------------------------------------------------------------------------------------------------
+# behavioural probes of the remaining sites.
+# Every parameter of ParamsC17.v has two sources: the ast translator above (preferred: it reads the clause structure) and
+# a probe of the REAL function / closure, reached through the library's own composition interfaces (a scripted listener
+# captures the per-connection coroutine the real server hands to it, a scripted accepted-socket factory / wrap() /
+# consumer / backend.timeout() / transport raises each exception class of the universe at the site).
+#   AST recognised + probe ran  -> they must agree (else fail closed, naming the difference)
+#   AST outside the fragment    -> the probe alone decides: booleans / class lists / stack orders are synthesised from the
+#                                  observations; filter tables are the site's reference table when the observed behaviour
+#                                  equals it on the complete domain (else fail closed, naming the differing input)
+#   probe cannot reach the site -> AST alone; both unavailable -> fail closed.
+# ----------------------------------------------------------------------------------------------------------------
+class _Unreachable(Exception):
+    """the probe could not be set up / could not reach the site (nothing is known about the behaviour)"""
+
+
+class _Captured(Exception):
+    pass
+
+
+def _probe_run(coro, limit=600):     # generous: only reached when a probe is really stuck
+    loop = asyncio.new_event_loop()
+    try:
+        return loop.run_until_complete(asyncio.wait_for(coro, limit))
+    finally:
+        with contextlib.suppress(BaseException):
+            loop.run_until_complete(loop.shutdown_asyncgens())
+        loop.close()
+
+
+def _real_backend():
+    from easynetwork.lowlevel.api_async.backend.utils import new_builtin_backend
+    return new_builtin_backend("asyncio")
+
+
+class _BackendProxy:
+    """the real backend, except that arming a timeout raises the scripted exception"""
+
+    def __init__(self, real, timeout_exc=None):
+        self._real, self._texc = real, timeout_exc
+
+    def timeout(self, delay):
+        if self._texc is not None:
+            raise self._texc
+        return self._real.timeout(delay)
+
+    def __getattr__(self, n):
+        return getattr(self._real, n)
+
+
+def _probe_transport_class():
+    from easynetwork.lowlevel.api_async.transports import abc as T
+
+    class RTransport(T.AsyncStreamTransport):
+        def __init__(self, backend, chunks=(), recv_exc=None, attrs=None, on_close=None):
+            super().__init__()
+            self._b, self.chunks, self.recv_exc, self.closed = backend, list(chunks), recv_exc, 0
+            self._attrs, self._on_close = attrs or {}, on_close
+
+        def backend(self):
+            return self._b
+
+        def is_closing(self):
+            return bool(self.closed)
+
+        async def aclose(self):
+            if self._on_close is not None:
+                self._on_close()
+            self.closed += 1
+
+        async def recv(self, n):
+            if self.recv_exc is not None:
+                raise self.recv_exc
+            return self.chunks.pop(0) if self.chunks else b""
+
+        async def recv_into(self, buf):
+            if self.recv_exc is not None:
+                raise self.recv_exc
+            d = self.chunks.pop(0) if self.chunks else b""
+            buf[:len(d)] = d
+            return len(d)
+
+        async def send_all(self, data):
+            pass
+
+        async def send_eof(self):
+            pass
+
+        @property
+        def extra_attributes(self):
+            return self._attrs
+
+    return RTransport
+
+
+def _contains(tree, obj):
+    if tree is obj:
+        return True
+    return isinstance(tree, BaseExceptionGroup) and any(_contains(s, obj) for s in tree.exceptions)
+
+
+def _full_domain():
+    return [(None, False)] + _probe_domain()
+
+
+# ---- plain filter tables on real exception objects ------------------------------------------------------------------
+REF_LISTENER = [(["asyncio.CancelledError"], ("reraise",), True), (["BaseException"], ("reraiseunless", "Exception"), True)]
+REF_TLS_WRAP = [(["asyncio.CancelledError"], ("reraise",), True), (["Exception"], ("swallow", 0), True)]
+REF_ADAPTER_CLOSE = [(["OSError"], ("swallow", 0), False)]
+_REF_OBJS = {"asyncio.CancelledError": asyncio.CancelledError, "BaseException": BaseException, "Exception": Exception,
+             "OSError": OSError, "ConnectionError": ConnectionError}
+
+
+def _ref_plain(ref):
+    return [(tuple(_REF_OBJS[c] for c in cs), (a[0], _REF_OBJS[a[1]]) if a[0] == "reraiseunless" else a, closes)
+            for cs, a, closes in ref]
+
+
+def _render_plain(ref, classes):
+    cl = []
+    for cs, a, closes in ref:
+        ids = [classes.add_obj(c, _REF_OBJS[c]) for c in cs]
+        act = f"ASwallow {a[1]}" if a[0] == "swallow" else "AReraise" if a[0] == "reraise" else \
+            f"AReraiseUnless {classes.add_obj(a[1], _REF_OBJS[a[1]])}"
+        cl.append("{| c_classes := [%s]; c_action := %s; c_closes := %s |}" % ("; ".join(map(str, ids)), act, _b(closes)))
+    return "LPlain [" + ";\n      ".join(cl) + "]"
+
+
+def _parse_plain(text, classes, where):
+    """the rendered `LPlain [...]` of the ast translator -> [(class objects, action, closes)]"""
+    import re
+    if not text.startswith("LPlain "):
+        raise TranslateError(f"{where}: not a plain try statement")
+    out = []
+    for m in re.finditer(r"c_classes := \[([^\]]*)\]; c_action := (\w+)(?: (\d+))?; c_closes := (true|false)", text):
+        objs = tuple(classes.objs[int(x)] for x in m.group(1).split(";") if x.strip())
+        act = ("swallow", int(m.group(3))) if m.group(2) == "ASwallow" else ("reraise",) if m.group(2) == "AReraise" \
+            else ("reraiseunless", classes.objs[int(m.group(3))])
+        out.append((objs, act, m.group(4) == "true"))
+    return out
+
+
+def _parse_layers(texts, classes):
+    """rendered `LStar [...]` / `LPlain [...]` of the ast translator -> the mirror's layer structures (class objects)"""
+    out = []
+    for text in texts:
+        kind = "star" if text.startswith("LStar ") else "plain"
+        out.append((kind, [(list(objs), act, closes) for objs, act, closes in _parse_plain("LPlain " + text.split(" ", 1)[1], classes, "")]))
+    return out
+
+
+def _parse_mcases(text, classes):
+    import re
+
+    def res(s):
+        s = s.strip()
+        if s.startswith("MSuppress"):
+            return ("suppress", int(s.split()[1]))
+        return ("propagate",) if s == "MPropagate" else ("raiserest",)
+
+    out = []
+    for item in [x.strip() for x in text.strip()[1:-1].split(";\n")]:
+        if m := re.fullmatch(r"MClass (\d+) \((.*)\)", item):
+            out.append(("class", classes.objs[int(m.group(1))], res(m.group(2))))
+        elif m := re.fullmatch(r"MDefault \((.*)\)", item):
+            out.append(("default", res(m.group(1))))
+        elif m := re.fullmatch(r"MGroupSplit (\d+) (\d+) (\d+) \((.*?)\) \[(.*)\] \((.*?)\)", item):
+            inner = [(classes.objs[int(a)], res(b)) for a, b in re.findall(r"\((\d+), ([^)]*)\)", m.group(5))]
+            out.append(("split", classes.objs[int(m.group(1))], classes.objs[int(m.group(2))], int(m.group(3)),
+                        res(m.group(4)), inner, res(m.group(6))))
+        else:
+            raise TranslateError(f"cannot re-read the rendered match case {item!r}")
+    return out
+
+
+def _plain_eval(clauses, exc):
+    """-> (escapes, the matching handler closes the connection)"""
+    for objs, act, closes in clauses:
+        if isinstance(exc, objs):
+            if act[0] == "swallow":
+                return False, closes
+            if act[0] == "reraise":
+                return True, closes
+            return (not isinstance(exc, act[1])), closes
+    return True, False
+
+
+def _check_plain(site, observed, clauses, what):
+    """observed: [(spec, nested, exc, escaped exception or None, closed)]"""
+    for spec, nested, exc, escaped, closed in observed:
+        if exc is None:
+            continue
+        want_esc, want_closed = _plain_eval(clauses, exc)
+        got_esc = escaped is not None
+        if got_esc and not _contains(escaped, exc):
+            raise TranslateError(f"{site}: with {spec} (nested={nested}) raised at the site, a different exception escapes: {escaped!r}")
+        if got_esc != want_esc or (closed is not None and bool(closed) != want_closed):
+            raise TranslateError(f"the behaviour of {site} differs from {what} on {spec} (nested={nested}): "
+                                 f"escapes={got_esc} connection closed={closed}, table says escapes={want_esc} closed={want_closed}")
+    return len(observed)
+
+
+# ---- the probes ----------------------------------------------------------------------------------------------------
+def _observe_listener(domain):
+    """client_connection_task of the real ListenerSocketAdapter.serve(): a scripted accepted-socket factory raises each
+    exception of the domain from connect() (None: it returns a stream) -> [(spec, nested, exc, escaped, socket closed)]"""
+    from easynetwork.lowlevel.api_async.backend._asyncio.stream import listener as LM
+    real = _real_backend()
+
+    class Factory(LM.AbstractAcceptedSocketFactory):
+        __slots__ = ("exc", "sock", "logged")
+
+        def log_connection_error(self, logger, exc):
+            self.logged.append(exc)
+
+        async def connect(self, backend, sock):
+            self.sock = sock
+            if self.exc is not None:
+                raise self.exc
+            return "STREAM"
+
+    async def go():
+        res = []
+        for spec, nested in domain:
+            exc = None if spec is None else make_exc(spec, False, nested)
+            fac = Factory()
+            fac.exc, fac.sock, fac.logged = exc, None, []
+            ls = socket.socket()
+            ls.bind(("127.0.0.1", 0))
+            ls.listen(8)
+            lst = LM.ListenerSocketAdapter(real, ls, fac)
+            started = []
+
+            async def handler(stream):
+                started.append(stream)
+
+            serve = asyncio.ensure_future(lst.serve(handler))
+            c = socket.socket()
+            c.setblocking(False)
+            with contextlib.suppress(BlockingIOError):
+                c.connect(ls.getsockname())
+            try:
+                for _ in range(100000):                # condition, not time: the factory has been asked (bound only for a dead loop)
+                    if fac.sock is not None or serve.done():
+                        break
+                    await asyncio.sleep(0.001)
+                for _ in range(10):
+                    await asyncio.sleep(0)
+                if fac.sock is None:
+                    raise _Unreachable("the accepted-socket factory of the listener was never asked to connect")
+                escaped = serve.exception() if serve.done() and not serve.cancelled() else None
+                closed = fac.sock.fileno() == -1
+                if exc is None and (started != ["STREAM"] or closed or escaped is not None):
+                    raise TranslateError("listener.ListenerSocketAdapter.serve.client_connection_task: a successfully "
+                                         f"accepted connection does not start the handler with its stream (started={started}, "
+                                         f"socket closed={closed}, escaped={escaped!r})")
+                if exc is not None and started:
+                    raise TranslateError("listener.ListenerSocketAdapter.serve.client_connection_task: the handler is started "
+                                         f"although connect() raised {spec}")
+                res.append((spec, nested, exc, escaped, closed))
+            finally:
+                serve.cancel()
+                with contextlib.suppress(BaseException):
+                    await serve
+                with contextlib.suppress(BaseException):
+                    await lst.aclose()
+                c.close()
+                if fac.sock is not None:
+                    fac.sock.close()
+        return res
+
+    return _probe_run(go(), 1800)
+
+
+def _observe_tls(domain, standard_compatible):
+    """tls_handler_wrapper of the real AsyncTLSListener.serve(): captured through a scripted inner listener; a scripted
+    AsyncTLSStreamTransport.wrap() raises each exception of the domain / returns a wrapped stream"""
+    from easynetwork.lowlevel.api_async.transports import tls as TM
+    from easynetwork.lowlevel.api_async.transports.abc import AsyncListener
+    real = _real_backend()
+    RTransport = _probe_transport_class()
+    got, reported, called, script = [], [], [], {}
+
+    class L(AsyncListener):
+        def backend(self):
+            return real
+
+        def is_closing(self):
+            return True
+
+        async def aclose(self):
+            pass
+
+        async def serve(self, handler, task_group=None):
+            got.append(handler)
+            raise _Captured
+
+        @property
+        def extra_attributes(self):
+            return {}
+
+    async def handler(stream):
+        called.append(stream)
+
+    async def capture():
+        lst = TM.AsyncTLSListener(L(), ssl.SSLContext(ssl.PROTOCOL_TLS_SERVER), handshake_timeout=1.0, shutdown_timeout=1.0,
+                                  standard_compatible=standard_compatible, handshake_error_handler=reported.append)
+        try:
+            await lst.serve(handler)
+        except _Captured:
+            pass
+
+    _probe_run(capture())
+    if len(got) != 1:
+        raise _Unreachable("AsyncTLSListener.serve() did not hand a per-connection coroutine to the wrapped listener")
+    wrapper = got[0]
+    orig = TM.AsyncTLSStreamTransport.__dict__["wrap"]
+
+    async def wrap(cls_, stream, *a, **kw):
+        script["stream"] = stream
+        if script["exc"] is not None:
+            raise script["exc"]
+        return "WRAPPED"
+
+    TM.AsyncTLSStreamTransport.wrap = classmethod(wrap)
+    res = []
+    try:
+        for spec, nested in domain:
+            exc = None if spec is None else make_exc(spec, False, nested)
+            script.update(exc=exc, stream=None)
+            del called[:]
+            tr = RTransport(real)
+
+            async def go():
+                try:
+                    await wrapper(tr)
+                except BaseException as out:  # noqa: BLE001
+                    return out
+                return None
+
+            escaped = _probe_run(go())
+            if script["stream"] is not tr:
+                raise _Unreachable("the captured coroutine did not call AsyncTLSStreamTransport.wrap() on the accepted stream")
+            if exc is None and (called != ["WRAPPED"] or tr.closed or escaped is not None):
+                raise TranslateError("tls.AsyncTLSListener.serve.tls_handler_wrapper: after a successful handshake the handler "
+                                     f"is not called with the wrapped stream (called with {called}, raw stream closed="
+                                     f"{tr.closed}, escaped={escaped!r})")
+            if exc is not None and called:
+                raise TranslateError(f"tls.AsyncTLSListener.serve.tls_handler_wrapper: handler called although wrap() raised {spec}")
+            res.append((spec, nested, exc, escaped, tr.closed > 0))
+    finally:
+        TM.AsyncTLSStreamTransport.wrap = orig
+    return res
+
+
+def _observe_adapter_close():
+    """AsyncioTransportStreamSocketAdapter.aclose() on a real socket transport whose write_eof() raises"""
+    from easynetwork.lowlevel.api_async.backend._asyncio.stream import socket as SM
+    real = _real_backend()
+
+    class TProxy:
+        def __init__(self, t, exc):
+            self._t, self._exc, self.closed = t, exc, 0
+
+        def write_eof(self):
+            if self._exc is not None:
+                raise self._exc
+            return self._t.write_eof()
+
+        def can_write_eof(self):
+            return True
+
+        def close(self):
+            self.closed += 1
+            return self._t.close()
+
+        def __getattr__(self, n):
+            return getattr(self._t, n)
+
+    import errno as _errno
+    excs = [("success", None)] + [([0, k], make_leaf(k)) for k in range(N_LEAVES)] + \
+        [(f"OSError({e})", OSError(getattr(_errno, e), "injected at write_eof")) for e in CLOSE_ERRNOS]
+    res = []
+    for spec, exc in excs:
+        async def go():
+            a, b = socket.socketpair()
+            loop = asyncio.get_running_loop()
+            tr, proto = await loop.connect_accepted_socket(lambda: SM.StreamReaderBufferedProtocol(loop=loop), a)
+            p = TProxy(tr, exc)
+            ad = SM.AsyncioTransportStreamSocketAdapter(real, p, proto)
+            try:
+                await asyncio.wait_for(ad.aclose(), 120)
+                out = None
+            except BaseException as o:  # noqa: BLE001
+                out = o
+            b.close()
+            tr.close()
+            await asyncio.sleep(0)
+            return out, p.closed
+
+        out, closed = _probe_run(go())
+        if not closed:
+            raise TranslateError(f"socket.AsyncioTransportStreamSocketAdapter.aclose: the transport is not closed when write_eof() "
+                                 f"raises {spec}")
+        res.append((spec, False, exc, out, None))
+    return res
+
+
+def _observe_receivers():
+    """_RequestReceiver / _BufferedRequestReceiver .next(): -> (every exception raised by consumer.next() -- on the
+    buffered fast path and after a recv -- comes back as a ThrowAction, leaves that come back as a ThrowAction when
+    arming the yielded delay raises them / when the wait inside raises them)"""
+    import dataclasses
+    from easynetwork.lowlevel._asyncgen import ThrowAction
+    from easynetwork.lowlevel.api_async.servers import stream as S
+    real = _real_backend()
+    RTransport = _probe_transport_class()
+
+    class FakeConsumer:
+        def __init__(self, script):
+            self.script, self.buf = list(script), bytearray(64)
+
+        def next(self, data):
+            act = self.script.pop(0) if self.script else ("more",)
+            if act[0] == "raise":
+                raise act[1]
+            raise StopIteration
+
+        def get_write_buffer(self):
+            return memoryview(self.buf)
+
+        def clear(self):
+            pass
+
+    def receiver(idx, transport, consumer):
+        cls = getattr(S, ("_RequestReceiver", "_BufferedRequestReceiver")[idx], None)
+        if cls is None:
+            raise _Unreachable("request receiver classes not found in servers/stream.py")
+        kw = dict(transport=transport, consumer=consumer, disconnect_error_filter=None)
+        if "max_recv_size" in {f.name for f in dataclasses.fields(cls)}:
+            kw["max_recv_size"] = 1024
+        return cls(**kw)
+
+    async def outcome(rcv, timeout, exc):
+        try:
+            act = await rcv.next(timeout)
+        except StopAsyncIteration:
+            return False
+        except BaseException:  # noqa: BLE001
+            return False
+        return isinstance(act, ThrowAction) and act.exception is exc
+
+    protected, conv = True, []
+    for k in range(N_LEAVES):
+        armed = True
+        for idx in (0, 1):
+            for script in (["raise"], ["more", "raise"]):
+                exc = make_leaf(k)
+                sc = [("raise", exc) if a == "raise" else ("more",) for a in script]
+
+                async def go():
+                    return await outcome(receiver(idx, RTransport(real, [b"abc"]), FakeConsumer(sc)), None, exc)
+
+                if not _probe_run(go()):
+                    protected = False
+            for where in ("arm", "inside"):
+                exc = make_leaf(k)
+
+                async def go2():
+                    b = _BackendProxy(real, exc if where == "arm" else None)
+                    tr = RTransport(b, [], recv_exc=exc if where == "inside" else None)
+                    return await outcome(receiver(idx, tr, FakeConsumer([])), 1.0, exc)
+
+                if not _probe_run(go2()):
+                    armed = False
+        if armed:
+            conv.append(k)
+    return protected, conv
+
+
+def _capture_stream_handler(cb):
+    """the per-connection coroutine function the real AsyncStreamServer hands to its listener"""
+    from easynetwork.lowlevel.api_async.servers import stream as S
+    from easynetwork.lowlevel.api_async.transports.abc import AsyncListener
+    from easynetwork.protocol import StreamProtocol
+    from easynetwork.serializers.line import StringLineSerializer
+    real = _real_backend()
+    got = []
+
+    class L(AsyncListener):
+        def backend(self):
+            return real
+
+        def is_closing(self):
+            return True
+
+        async def aclose(self):
+            pass
+
+        async def serve(self, handler, task_group=None):
+            got.append(handler)
+            raise _Captured
+
+        @property
+        def extra_attributes(self):
+            return {}
+
+    async def go():
+        srv = S.AsyncStreamServer(L(), StreamProtocol(StringLineSerializer()), 1024)
+        try:
+            await srv.serve(cb)
+        except _Captured:
+            pass
+
+    _probe_run(go())
+    if len(got) != 1:
+        raise _Unreachable("AsyncStreamServer.serve() did not hand a per-connection coroutine to its listener")
+    return real, got[0]
+
+
+def _observe_stream_task():
+    """the connection is closed even when creating the handler generator fails (forced close registered first)"""
+    RTransport = _probe_transport_class()
+    ok = True
+    for k in range(N_LEAVES):
+        exc = make_leaf(k)
+
+        def cb(client):
+            raise exc
+
+        real, handler = _capture_stream_handler(cb)
+
+        async def go():
+            tr = RTransport(real)
+            try:
+                await handler(tr)
+            except BaseException as out:  # noqa: BLE001
+                if out is not exc:
+                    raise _Unreachable(f"the captured connection coroutine failed before creating the handler: {out!r}")
+            else:
+                raise _Unreachable("the captured connection coroutine did not create the handler")
+            return tr.closed
+
+        if not _probe_run(go()):
+            ok = False
+    return ok
+
+
+def _dgram_server(cb, backend):
+    from easynetwork.lowlevel.api_async.servers import datagram as D
+    from easynetwork.lowlevel.api_async.transports.abc import AsyncDatagramListener
+    from easynetwork.protocol import DatagramProtocol
+    from easynetwork.serializers.line import StringLineSerializer
+    got = []
+
+    class L(AsyncDatagramListener):
+        def backend(self):
+            return backend
+
+        def is_closing(self):
+            return True
+
+        async def aclose(self):
+            pass
+
+        async def send_to(self, data, address):
+            pass
+
+        async def serve(self, handler, task_group=None):
+            got.append(handler)
+            await asyncio.Event().wait()
+
+        @property
+        def extra_attributes(self):
+            return {}
+
+    return D.AsyncDatagramServer(L(), DatagramProtocol(StringLineSerializer())), got
+
+
+def _observe_udp_task():
+    """-> (after a handler failure -- of every leaf class, escaping or not -- a later datagram of the address starts a
+    fresh handler, leaves that are thrown into the handler when arming its yielded delay raises them)"""
+    addr = ("127.0.0.1", 9)
+    fresh_all, conv = True, []
+
+    async def drive(srv, got, cb, datagrams):
+        serve = asyncio.ensure_future(srv.serve(cb))
+        for _ in range(1000):
+            if got or serve.done():
+                break
+            await asyncio.sleep(0)
+        if not got:
+            serve.cancel()
+            raise _Unreachable("AsyncDatagramServer.serve() did not hand a datagram callback to its listener")
+        for d in datagrams:
+            with contextlib.suppress(BaseException):
+                await got[0](d, addr)
+            for _ in range(5):
+                await asyncio.sleep(0)
+        serve.cancel()
+        with contextlib.suppress(BaseException):
+            await serve
+
+    for k in range(N_LEAVES):
+        exc = make_leaf(k, True)
+        state = {"gens": 0}
+
+        async def cb(ctx):
+            state["gens"] += 1
+            if state["gens"] == 1:
+                raise exc
+            yield
+
+        async def go():
+            srv, got = _dgram_server(cb, _real_backend())
+            await drive(srv, got, cb, [b"x\n", b"y\n"])
+
+        _probe_run(go())
+        if state["gens"] < 1:
+            raise _Unreachable("the datagram callback never created a handler")
+        if state["gens"] < 2:
+            fresh_all = False
+        thrown = []
+
+        async def cb2(ctx):
+            yield
+            try:
+                yield 1.0
+            except BaseException as t:  # noqa: BLE001
+                thrown.append(t)
+
+        async def go2():
+            srv, got = _dgram_server(cb2, _BackendProxy(_real_backend(), exc))
+            await drive(srv, got, cb2, [b"x\n"])
+
+        _probe_run(go2())
+        if thrown and thrown[0] is exc:
+            conv.append(k)
+    return fresh_all, conv
+
+
+def _observe_dgram_initializer():
+    """misc.build_lowlevel_datagram_server_handler: a failure of the request handler passes through the initializer's
+    context manager (= _ClientContext.__aexit__ sees it)"""
+    from easynetwork.servers.handlers import AsyncDatagramRequestHandler
+    from easynetwork.servers.misc import build_lowlevel_datagram_server_handler
+    seen = []
+
+    class RH(AsyncDatagramRequestHandler):
+        async def handle(self, client):
+            if mode[0] == "before":
+                raise boom[0]
+            yield
+            raise boom[0]
+
+    @contextlib.asynccontextmanager
+    async def initializer(ctx):
+        try:
+            yield object()
+        except BaseException as exc:  # noqa: BLE001
+            seen.append(exc)
+            raise
+
+    mode, boom = ["before"], [None]
+    handler = build_lowlevel_datagram_server_handler(initializer, RH())
+    ok = True
+    for m in ("before", "after"):
+        mode[0], boom[0] = m, ValueError("handler fails " + m)
+        del seen[:]
+
+        async def go():
+            gen = handler(object())
+            with contextlib.suppress(BaseException):
+                await gen.asend(None)
+                await gen.asend("request")
+
+        _probe_run(go())
+        ok = ok and any(s is boom[0] for s in seen)
+    return ok
+
+
+class _Events(list):
+    client = None
+
+    def note(self, ev):
+        self.sample()
+        self.append(ev)
+
+    def sample(self):
+        # _on_disconnect() is seen through the public client.is_closing()
+        if self.client is not None and "SOnDisconnect" not in self and self.client.is_closing():
+            self.append("SOnDisconnect")
+
+
+def _find_initializer(server):
+    import inspect
+    cls = type(server)
+    name = f"_{cls.__name__}__client_initializer"
+    if hasattr(server, name):
+        return getattr(server, name)
+    cands = [n for n, f in vars(cls).items() if callable(f) and inspect.isasyncgenfunction(getattr(f, "__wrapped__", None))]
+    if len(cands) != 1:
+        raise _Unreachable(f"cannot identify the client initializer of {cls.__name__} (candidates: {cands})")
+    return getattr(server, cands[0])
+
+
+def _observe_tcp_init(flavour):
+    """the real AsyncTCPNetworkServer.__client_initializer on a scripted lowlevel client (flavour 0 plain, 1 TLS
+    standard-compatible, 2 TLS not standard-compatible): a generic exception is thrown at its yield; the exit callbacks
+    are seen through their effects (bind release, suppressor's log record, fileno() of the linger helper, aclose() of the
+    transport, the 'disconnected' record, client.is_closing()) -> (items in push order, what escapes)"""
+    from easynetwork.lowlevel._stream import StreamDataProducer
+    from easynetwork.lowlevel.api_async.servers.stream import ConnectedStreamClient
+    from easynetwork.lowlevel.socket import INETSocketAttribute, TLSAttribute
+    from easynetwork.protocol import StreamProtocol
+    from easynetwork.serializers.line import StringLineSerializer
+    from easynetwork.servers.async_tcp import AsyncTCPNetworkServer
+    from easynetwork.servers.handlers import AsyncStreamRequestHandler
+    real = _real_backend()
+    RTransport = _probe_transport_class()
+    events = _Events()
+    lg = logging.getLogger("c17.probe.init")
+
+    class H(logging.Handler):
+        def emit(self, record):
+            msg = record.msg if isinstance(record.msg, str) else str(record.msg)
+            if "disconnected" in msg:
+                events.note("SLogDisconnected")
+            elif _log_code(msg) == 2 and "SSuppress" not in events:
+                events.note("SSuppress")
+
+    lg.handlers[:] = [H(logging.DEBUG)]
+    lg.setLevel(logging.DEBUG)
+    lg.propagate = False
+
+    class RH(AsyncStreamRequestHandler):
+        async def handle(self, client):
+            yield
+
+    proto = StreamProtocol(StringLineSerializer())
+    ls = socket.socket()
+    ls.bind(("127.0.0.1", 0))
+    ls.listen(1)
+    c = socket.socket()
+    c.connect(ls.getsockname())
+    s, _ = ls.accept()
+
+    class RecSock:
+        def fileno(self):
+            if "SLinger" not in events:
+                events.note("SLinger")
+            return s.fileno()
+
+        def __getattr__(self, n):
+            return getattr(s, n)
+
+    rs = RecSock()
+    attrs = {INETSocketAttribute.socket: lambda: rs, INETSocketAttribute.family: lambda: s.family,
+             INETSocketAttribute.sockname: lambda: s.getsockname(), INETSocketAttribute.peername: lambda: s.getpeername()}
+    if flavour in (1, 2):
+        attrs[TLSAttribute.sslcontext] = lambda: ssl.SSLContext(ssl.PROTOCOL_TLS_SERVER)
+        attrs[TLSAttribute.standard_compatible] = lambda: flavour == 1
+    thrown = ValueError("thrown at the yield of the client initializer")
+    bind_name = "_bind_server"
+    had_own = bind_name in AsyncTCPNetworkServer.__dict__
+    orig_bind = getattr(AsyncTCPNetworkServer, bind_name, None)
+
+    async def go():
+        server = AsyncTCPNetworkServer("127.0.0.1", 0, proto, RH(), logger=lg)
+        init = _find_initializer(server)
+        tr = RTransport(real, attrs=attrs, on_close=lambda: events.note("SAclosing"))
+        ll = ConnectedStreamClient(_transport=tr, _producer=StreamDataProducer(proto))
+        cm = init(ll)
+        client = await cm.__aenter__()
+        if client is None:
+            raise _Unreachable("the client initializer did not yield a client for the scripted connection")
+        del events[:]
+        events.client = client
+        try:
+            swallowed = await cm.__aexit__(type(thrown), thrown, thrown.__traceback__)
+            esc = None if swallowed else thrown
+        except BaseException as out:  # noqa: BLE001
+            esc = out
+        events.sample()
+        events.client = None
+        with contextlib.suppress(BaseException):
+            await server.server_close()
+        return esc
+
+    patched = False
+    try:
+        if orig_bind is not None:
+            def bind(self_):
+                inner = orig_bind(self_)
+
+                @contextlib.contextmanager
+                def cm_():
+                    with inner:
+                        try:
+                            yield
+                        finally:
+                            events.note("SBind")
+                return cm_()
+
+            AsyncTCPNetworkServer._bind_server = bind
+            patched = True
+        esc = _probe_run(go())
+    finally:
+        if patched:
+            if had_own:
+                AsyncTCPNetworkServer._bind_server = orig_bind
+            else:
+                delattr(AsyncTCPNetworkServer, bind_name)
+        for x in (c, s, ls):
+            x.close()
+        lg.handlers[:] = []
+    return list(reversed(events)), esc, thrown
+
+
+# ---- AST + probe -> parameter ------------------------------------------------------------------------------------------
+def _site(name, notes, ast_fn, beh_fn):
+    """ast_fn() -> value (TranslateError: outside the fragment); beh_fn(ast value | None) -> value: checks the agreement
+    when an AST value is given, derives the value from the observations otherwise; _Unreachable: probe cannot reach."""
+    try:
+        a, aerr = ast_fn(), None
+    except TranslateError as exc:
+        a, aerr = None, exc
+    try:
+        b = beh_fn(a)
+    except TranslateError as exc:
+        if aerr is not None:
+            raise TranslateError(f"{aerr}; and {exc}")
+        raise
+    except _Unreachable as exc:
+        if aerr is not None:
+            raise TranslateError(f"{aerr}; and the behavioural probe cannot reach the site: {exc}")
+        notes.append(f"{name}: AST only -- the behavioural probe cannot reach the site: {exc}")
+        return a
+    except Exception as exc:      # the probe itself crashed: nothing is known from it
+        if aerr is not None:
+            raise TranslateError(f"{aerr}; and the behavioural probe crashed: {exc.__class__.__name__}: {exc}")
+        notes.append(f"{name}: AST only -- the behavioural probe crashed: {exc.__class__.__name__}: {exc}")
+        return a
+    if aerr is not None:
+        notes.append(f"{name}: behavioural; AST: {aerr}")
+    return b
+
+
+def _leaves_matching(ids, classes, udp):
+    leaves = _leaf_classes(udp)
+    return [k for k in range(N_LEAVES) if any(issubclass(leaves[k], classes.objs[i]) for i in ids)]
+
+
+def _classes_for_leaves(conv, classes, udp, where):
+    """a class list whose instances among the leaves are exactly conv"""
+    leaves = _leaf_classes(udp)
+    if len(conv) == N_LEAVES:
+        return [0]
+    ids = []
+    for k in conv:
+        obj = leaves[k]
+        ids.append(classes.add_obj(obj.__name__ if obj.__module__ == "builtins" else f"{obj.__module__}.{obj.__qualname__}", obj))
+    if _leaves_matching(ids, classes, udp) != list(conv):
+        raise TranslateError(f"{where}: the set of classes turned into a ThrowAction ({conv}) is not closed under subclassing")
+    return ids
+
+
+def _agree(notes, name, check):
+    """an AST-recognised site whose real function is probed as well: a difference fails closed, a probe that cannot run
+    leaves the AST value alone (and says so)"""
+    try:
+        check()
+    except TranslateError:
+        raise
+    except Exception as exc:  # noqa: BLE001
+        notes.append(f"{name}: AST only -- the behavioural probe could not run: {exc.__class__.__name__}: {exc}")
+
+
+def _site_plain(name, notes, classes, ast_fn, observe, ref, extra_domains=()):
+    def beh(a):
+        observed = observe()
+        if a is not None:
+            _check_plain(name, observed, _parse_plain(a, classes, name), "the table read from its source")
+            return a
+        try:
+            n = _check_plain(name, observed, _ref_plain(ref), "its reference table")
+        except TranslateError as differs:
+            # not the reference behaviour: synthesise a table from the observations (and verify it on all of them)
+            table = _synth_plain(observed)
+            if table is None:
+                raise
+            try:
+                _check_plain(name, observed, [(objs, a, cl) for _n, objs, a, cl in table], "any single plain try statement")
+            except TranslateError:
+                raise differs
+            notes.append(f"{name}: table synthesised from {len(observed)} probes of the real closure ({differs})")
+            cl = []
+            for names_, objs, a, closes in table:
+                ids = [classes.add_obj(nm, ob) for nm, ob in zip(names_, objs)]
+                act = "ASwallow 0" if a[0] == "swallow" else "AReraise"
+                cl.append("{| c_classes := [%s]; c_action := %s; c_closes := %s |}" % ("; ".join(map(str, ids)), act, _b(closes)))
+            return "LPlain [" + ";\n      ".join(cl) + "]"
+        notes.append(f"{name}: {n} probes of the real closure equal the reference table")
+        return _render_plain(ref, classes)
+    return _site(name, notes, ast_fn, beh)
+
+
+def _synth_universe():
+    from easynetwork.exceptions import ClientClosedError, StreamProtocolParseError
+    u = [("BaseException", BaseException), ("Exception", Exception), ("OSError", OSError), ("ConnectionError", ConnectionError),
+         ("TimeoutError", TimeoutError), ("ValueError", ValueError), ("ConnectionResetError", ConnectionResetError),
+         (f"{ClientClosedError.__module__}.{ClientClosedError.__qualname__}", ClientClosedError),
+         (f"{StreamProtocolParseError.__module__}.{StreamProtocolParseError.__qualname__}", StreamProtocolParseError),
+         ("BaseExceptionGroup", BaseExceptionGroup), ("ExceptionGroup", ExceptionGroup)]
+    return u
+
+
+def _synth_plain(observed):
+    """observations [(spec, nested, exc, escaped, closed)] -> [(names, class objects, action, closes)] | None:
+    one swallowing clause naming the maximal classes all of whose observed instances are swallowed, then one re-raising
+    clause for the classes all of whose observed instances escape with the connection closed"""
+    obs = [(exc, escaped is not None, closed) for _s, _n, exc, escaped, closed in observed if exc is not None]
+
+    def maximal(pred):
+        good = []
+        for nm, ob in _synth_universe():
+            inst = [o for o in obs if isinstance(o[0], ob)]
+            if inst and all(pred(o) for o in inst):
+                good.append((nm, ob))
+        return [(nm, ob) for nm, ob in good if not any(o2 is not ob and issubclass(ob, o2) for _n2, o2 in good)]
+
+    sw = maximal(lambda o: not o[1])
+    table = []
+    if sw:
+        closes = {bool(o[2]) for o in obs if not o[1] and o[2] is not None}
+        if len(closes) > 1:
+            return None
+        table.append(([n for n, _ in sw], tuple(o for _, o in sw), ("swallow", 0), bool(closes and closes.pop())))
+    rr = maximal(lambda o: o[1] and bool(o[2]))
+    if rr:
+        table.append(([n for n, _ in rr], tuple(o for _, o in rr), ("reraise",), True))
+    return table or None
 
 
 def _render_layers(layers, classes):
@@ -1226,27 +2174,122 @@ def _params():
         n = _fallback_tcp_suppress(str(exc))
         suppress = _render_layers(REF_TCP_SUPPRESS, classes)
         notes.append(f"tcp_suppress: behavioural ({n} probes equal the reference table); AST: {exc}")
-    st_plain, st_tls, st_tls_nc, reraises = _tr_tcp_init(tcp)
+    else:
+        _agree(notes, "tcp_suppress", lambda: _fallback_tcp_suppress(
+            "async_tcp.__suppress_and_log_remaining_exception: source and behaviour disagree",
+            _parse_layers(suppress, classes), "the table read from its source"))
+    def beh_init(a):
+        stacks, rer = [], None
+        for fl in (0, 1, 2):
+            items, esc, thrown = _observe_tcp_init(fl)
+            stacks.append(items)
+            if "SSuppress" in items:
+                rer = True if rer is None else rer             # what was thrown at the yield reached the suppressor
+            elif esc is None:
+                rer = False                                     # swallowed although no suppressor saw it
+            elif rer is None and _contains(esc, thrown):
+                rer = True
+        rer = bool(rer)
+        if a is not None:
+            for fl, got in enumerate(stacks):
+                want = list(a[fl])
+                if [x for x in want if x != "SBind"] != [x for x in got if x != "SBind"] or a[3] != rer:
+                    raise TranslateError(f"async_tcp.__client_initializer (flavour {fl}): the source reads as stack {want} "
+                                         f"reraises={a[3]}, the real context manager behaves as {got} reraises={rer}")
+            return a
+        return stacks[0], stacks[1], stacks[2], rer
+
+    st_plain, st_tls, st_tls_nc, reraises = _site("tcp_init_stack / tcp_init_reraises", notes, lambda: _tr_tcp_init(tcp), beh_init)
     try:
         disc_layer, disc_after = _tr_misc_stream(_src(SRC + "servers/misc.py"), classes)
     except TranslateError as exc:
         n, disc_after = _fallback_misc_stream(str(exc))
         (disc_layer,) = _render_layers(REF_TCP_DISCONNECT, classes)
         notes.append(f"tcp_disconnect_hook / misc_disconnect_after_connection: behavioural ({n} probes); AST: {exc}")
-    close_first = _tr_stream_task(_src(SRC + "lowlevel/api_async/servers/stream.py"))
-    recv_protected = _tr_receivers(_src(SRC + "lowlevel/api_async/servers/stream.py"))
-    listener = _tr_listener(_src(SRC + "lowlevel/api_async/backend/_asyncio/stream/listener.py"), classes)
-    tls = _tr_tls(_src(SRC + "lowlevel/api_async/transports/tls.py"), classes)
-    adapter_close = _tr_adapter_close(_src(SRC + "lowlevel/api_async/backend/_asyncio/stream/socket.py"), classes)
+    else:
+        def misc_agrees():
+            _n, after = _fallback_misc_stream("misc.build_lowlevel_stream_server_handler.handler: source and behaviour disagree",
+                                              _parse_layers([disc_layer], classes), "the table read from its source")
+            if after != disc_after:
+                raise TranslateError("misc.build_lowlevel_stream_server_handler.handler: the source reads as 'on_disconnection "
+                                     f"registered after on_connection'={disc_after}, the real handler behaves as {after}")
+        _agree(notes, "tcp_disconnect_hook / misc_disconnect_after_connection", misc_agrees)
+    def agree(name, a, got):
+        if a is not None and a != got:
+            raise TranslateError(f"{name}: the source reads as {a}, the real code behaves as {got}")
+        return got
+
+    stream_tree = _src(SRC + "lowlevel/api_async/servers/stream.py")
+    dgram_tree = _src(SRC + "lowlevel/api_async/servers/datagram.py")
+    close_first = _site("stream_close_pushed_first", notes, lambda: _tr_stream_task(stream_tree),
+                        lambda a: agree("stream.AsyncStreamServer.__client_coroutine (forced close registered first)", a,
+                                        _observe_stream_task()))
+    rcv = {}
+
+    def receivers_once():
+        if not rcv:
+            rcv["v"] = _observe_receivers()
+        return rcv["v"]
+
+    recv_protected = _site("receiver_next_protected", notes, lambda: _tr_receivers(stream_tree),
+                           lambda a: agree("stream._RequestReceiver/_BufferedRequestReceiver.next (consumer.next() protected)", a,
+                                           receivers_once()[0]))
+    full = _full_domain()
+    listener = _site_plain("listener.ListenerSocketAdapter.serve.client_connection_task", notes, classes,
+                           lambda: _tr_listener(_src(SRC + "lowlevel/api_async/backend/_asyncio/stream/listener.py"), classes),
+                           lambda: _observe_listener(full), REF_LISTENER)
+    tls = _site_plain("tls.AsyncTLSListener.serve.tls_handler_wrapper", notes, classes,
+                      lambda: _tr_tls(_src(SRC + "lowlevel/api_async/transports/tls.py"), classes),
+                      lambda: _observe_tls(full, True) + _observe_tls(full, False), REF_TLS_WRAP)
+    adapter_close = _site_plain("socket.AsyncioTransportStreamSocketAdapter.aclose", notes, classes,
+                                lambda: _tr_adapter_close(_src(SRC + "lowlevel/api_async/backend/_asyncio/stream/socket.py"), classes),
+                                _observe_adapter_close, REF_ADAPTER_CLOSE)
     try:
         udp = _tr_udp_aexit(_src(SRC + "servers/async_udp.py"), classes)
     except TranslateError as exc:
         n = _fallback_udp_aexit(str(exc))
         udp = _render_mcases(REF_UDP_AEXIT, classes)
         notes.append(f"udp_aexit: behavioural ({n} probes equal the reference table); AST: {exc}")
-    in_finally, marks_first = _tr_udp_task(_src(SRC + "lowlevel/api_async/servers/datagram.py"))
-    tcp_wait, udp_wait = _tr_wait_clauses(_src(SRC + "lowlevel/api_async/servers/stream.py"),
-                                          _src(SRC + "lowlevel/api_async/servers/datagram.py"), classes)
+    else:
+        _agree(notes, "udp_aexit", lambda: _fallback_udp_aexit(
+            "async_udp._ClientContext.__aexit__: source and behaviour disagree", _parse_mcases(udp, classes),
+            "the table read from its source"))
+    udp_obs = {}
+
+    def udp_once():
+        if not udp_obs:
+            udp_obs["v"] = _observe_udp_task()
+        return udp_obs["v"]
+
+    def beh_udp_task(a):
+        fresh = udp_once()[0]
+        if a is not None:
+            if (a[0] and a[1]) != fresh:
+                raise TranslateError(f"datagram.AsyncDatagramServer.__client_coroutine: the source reads as done_in_finally={a[0]} "
+                                     f"marks_first={a[1]}, but a fresh handler after every failure is {fresh} on the real server")
+            return a
+        if not _observe_dgram_initializer():
+            raise TranslateError("misc.build_lowlevel_datagram_server_handler.handler: a failure of the request handler does not "
+                                 "pass through the initializer's context manager")
+        return fresh, fresh
+
+    in_finally, marks_first = _site("udp_done_in_finally / udp_done_marks_first", notes, lambda: _tr_udp_task(dgram_tree),
+                                    beh_udp_task)
+
+    def beh_wait(a):
+        tcp_conv, udp_conv = receivers_once()[1], udp_once()[1]
+        if a is not None:
+            for nm, ids, conv, udp_ in (("stream receivers", a[0], tcp_conv, False), ("datagram inner loop", a[1], udp_conv, True)):
+                if _leaves_matching(ids, classes, udp_) != conv:
+                    raise TranslateError(f"yielded-delay handling ({nm}): the source names classes {[classes.names[i] for i in ids]} "
+                                         f"(leaves {_leaves_matching(ids, classes, udp_)}), the real code turns leaves {conv} "
+                                         "into a ThrowAction")
+            return a
+        return (_classes_for_leaves(tcp_conv, classes, False, "stream receivers"),
+                _classes_for_leaves(udp_conv, classes, True, "datagram inner loop"))
+
+    tcp_wait, udp_wait = _site("tcp_wait_clauses / udp_wait_clauses", notes,
+                               lambda: _tr_wait_clauses(stream_tree, dgram_tree, classes), beh_wait)
 
     # instance table from the real classes
     tcp_leaves, udp_leaves = _leaf_classes(False), _leaf_classes(True)
